@@ -25,7 +25,7 @@ ID = "C20"
 LEVEL = "exploration"
 BATCH = 1
 TIMEOUT = 900
-REQUIRED_OBS = ["toml_keys_compared", "cli_vs_api_trees_compared", "files_compared", "solver_dense", "solver_sparse", "solver_rosenbrock4", "solver_cusparse",
+REQUIRED_OBS = ["toml_keys_compared", "cli_vs_api_trees_compared", "cli_after_foreign_configuration", "files_compared", "solver_dense", "solver_sparse", "solver_rosenbrock4", "solver_cusparse",
                 "with_replacement", "with_binding_or_yield", "with_modifiers", "with_allowed_species", "with_cooling", "with_bulk_prefix", "examples_rendered", "example_command_lines_checked"]
 RULE = ("option sets for `naunet init`: element / pseudo-element lists (default, upper-case with replacement table), surface and bulk prefixes, "
         "allowed and extra species, binding-energy and yield tables, network files of every format, grain model, cooling lists, shielding "
@@ -348,7 +348,19 @@ def run_case(case, ctx):
         obs["with_repeated_format"] += 1
     if d.get("shielding") or d.get("grain_model"):
         groups += 1
-    cli = child({"mode": "cli", "desc": d, "options": case["options"], "multi": case["multi"], "out": str(cli_dir)}, work, "cli")
+    job = {"mode": "cli", "desc": d, "options": case["options"], "multi": case["multi"], "out": str(cli_dir)}
+    if sum(map(ord, json.dumps(case["options"], sort_keys=True))) % 2 == 0:
+        # seed C20-h: a configuration file is a function of its own options, not of what the process wrote before - the same interpreter
+        # first writes a foreign project whose every table (shielding, modifiers, binding, yield, cooling, prefixes) is filled
+        pre = dict(case["options"])
+        pre.update({"shielding": "H2:L96Table, CO:V09Table, N2:L13Table", "binding": "H2O=5773.0,CO=1150.0", "yield": "H2O=1e-3,CO=2.7e-3",
+                    "cooling": "CIC_HI", "allowed-species": "", "extra-species": "He,O", "grain-model": "", "surface-prefix": "J", "bulk-prefix": "K",
+                    "element-replacement": "X:Y"})
+        pre_dir = work / "foreign_first"
+        pre_dir.mkdir(parents=True, exist_ok=True)
+        job.update({"prelude_options": pre, "prelude_multi": {"rate-modifier": ["0: 7.0"], "ode-modifier": ["H:-1.0,[H]"]}, "prelude_out": str(pre_dir)})
+        obs["cli_after_foreign_configuration"] += 1
+    cli = child(job, work, "cli")
     if cli.get("harness"):
         return {"status": "inconclusive", "violations": [], "obs": dict(obs), "lost": cli.get("error")}
     sample = {"style": case["style"], "options": {k: v for k, v in case["options"].items() if v and k not in ("elements", "pseudo-elements")}, "multi": case["multi"]}
